@@ -12,7 +12,8 @@ RULE = ("streams: ell (every table ellipsoid + default + random set_ab/af/af1; l
         "incl. antimeridian, h in [-10 km, 20000 km]), ang (gon2deg/rad2deg/latlong/deg2gon/dms2rad/rad2dms over specials: "
         "seconds that round up, double carries, negatives, -0, tiny, large; sign 0..3, prec 0..8), brg (point pairs in all "
         "quadrants, axes, below/above the 1e-6 cut), lit (every string over a 7-letter alphabet up to a bounded length through "
-        "IsInteger/IsFloat/deg2gon). distinct = distinct op line; non-trivial = ell: not on the axis; ang: non-zero angle; "
+        "IsInteger/IsFloat/deg2gon, three parties: real code = model of the scanner = derivative matcher of the documented "
+        "grammar with the numeric ranges; plus structured longer strings incl. int and double overflow). distinct = distinct op line; non-trivial = ell: not on the axis; ang: non-zero angle; "
         "brg: d >= 1e-6; lit: accepted by at least one recogniser")
 TRUSTED = ["tools/gen/c18_ellipsoids.py (regex reader of ellipsoids.{h,cpp}; cross-checked enum/id/caption/switch/strcmp views, "
            "and executed against the C++ on every ellipsoid by the correspondence)",
@@ -20,8 +21,7 @@ TRUSTED = ["tools/gen/c18_ellipsoids.py (regex reader of ellipsoids.{h,cpp}; cro
 MODELLED = ["libm sin/cos/atan2/sqrt (shared between model execution and C++; theorems use Mathlib's real functions)",
             "IEEE rounding of the field splitting (theorems are over Q/R exact arithmetic)",
             "ostream fixed formatting = exact decimal rounding, ties to even (glibc) — modelled on Rat, compared byte-exactly",
-            "strtod/num_get of the seconds field in deg2gon (modelled as mantissa*10^exp; compared at 1e-12)",
-            "decimal digits of Nat (Lean `toString`) are trusted to denote the number"]
+            "strtod/num_get of the seconds field in deg2gon (modelled as mantissa*10^exp, overflow to infinity = failbit; value compared at 1e-12)"]
 ASSUMPTIONS = ["|gon|*0.9, |rad|*180/pi < 2^31 (int(x) is undefined beyond; not generated)",
                "ellipsoids with 0 < b <= a; points with N(b)+h > 0"]
 
@@ -29,10 +29,14 @@ LEVEL_TEXT = ("Lean 4 theorems over R (Mathlib trig, Complex.arg as atan2) and Q
               "gon2deg.cpp, latlong.cpp, bearing.cpp, intfloat.h: pole branch, exact longitude, exact height, Bowring exact on the "
               "surface for every ellipsoid 0<b<=a, table parameters (regenerated from ellipsoids.cpp, decided for all 48 rows), "
               "sexagesimal field ranges and value identity, printed seconds < 60 for the repaired formatter (and the F14 witness "
-              "for the original), read-back within half a unit of the printed precision, dms2rad/rad2dms round trip, bearing "
-              "range/polar consistency/antisymmetry/symmetry, exact language of IsInteger/IsFloat. Models tied to the C++ by a "
+              "for the original), string-level round trip deg2gon(gon2deg g) within half a unit of the printed precision for every "
+              "angle, precision and sign mode (digits <-> numbers proved, scanner model), latlong fields over R, dms2rad/rad2dms "
+              "round trip, bearing range/polar consistency/antisymmetry/symmetry; IsInteger, IsFloat and deg2gon accept exactly "
+              "their documented regular languages (all strings; deg2gon with the int/double ranges), decided by a verified "
+              "derivative matcher; two-pass Bowring latitude error: contraction per pass, explicit bound, sub-millimetre on every "
+              "table ellipsoid for -10 km <= h <= 20000 km. Models tied to the C++ by a "
               "translator (ellipsoid table) and byte-exact / 1e-12 correspondence; round-trip and format oracles on the implementation.")
-LEVEL_NOTE = ("Partial: the error of the two-pass Bowring formula off the surface (h != 0) is searched (sub-millimetre up to "
+LEVEL_NOTE = ("Partial: off the surface the HEIGHT error as a function of the (proved) latitude error is searched (< 2e-8 m up to "
               "20000 km measured), not proved; theorems are in exact arithmetic (IEEE rounding, libm, strtod not modelled). "
               "Defects found and repaired by fix: commits (the models carry both variants, selected by the translator): "
               "seconds printed as 60.00 (F14), -0.0 printed as -0.00, NaN from xyz2blh at the poles, IsInteger accepting a lone "
@@ -224,7 +228,14 @@ def gen_lit_cases(ctx, rng, maxlen, extra):
         strings.append(s)
         strings.append(rng.choice(["", " ", "+", "-"]) + rng.choice(["12", "1.5", ".5", "5.", "1e5", "1.5E-3", "1e", "e5", "2147483648", "0x10", "1 2"]) + rng.choice(["", " ", "\r\n"]))
     strings += ["2147483647-0-0", "2147483648-0-0", "-2147483648-0-0", "+-0-0-0", "--0-0-0", "--1-0-0", "1-2147483648-0", "1--2-3", "1-2--3",
-                "1-2-+3", "1- 2-3", "1-2- 3", " 1-2-3 ", "1-2-3.5.1", "10-20-60.00", "359-59-59.999"]
+                "1-2-+3", "1- 2-3", "1-2- 3", " 1-2-3 ", "1-2-3.5.1", "10-20-60.00", "359-59-59.999",
+                # istream >> double: overflow sets failbit, underflow does not
+                "1-1-1e999", "1-1-1e308", "1-1-2e308", "0-0-17976931348623158e292", "0-0-17976931348623159e292", "1-1-1e-999",
+                "1-1-0e999", "1-1-0.0e999", "1-1-1E400", "1-1-0.0001e313", "1-1-179769313486231580793e288", "1-1-1e+309", "1-1-9e+308",
+                "- -0-0-0", "+ +1-0-0", "+ -1-0-0", "-\t-00-1-1", "1-99-99", "1-1-1.", "1-1-.5", "1-1-1e", "1-1-1e+", "1-1-1.e1"]
+    for _ in range(extra // 10):
+        strings.append("%d-%d-%s%se%s%d" % (rng.randint(0, 9), rng.randint(0, 9), rng.choice(["1", "9.9", "0.01", "17976931348623158", "0"]),
+                                           rng.choice(["", "0", "00"]), rng.choice(["", "+"]), rng.randint(280, 330)))
     cases = []
     chunk = 400
     for i in range(0, len(strings), chunk):
@@ -317,6 +328,9 @@ def spec_dms(s):
     return g
 
 
+GRAMMAR_OP = {"isint": "rxint", "isfloat": "rxflt", "deg2gon": "rxdms"}
+
+
 def num(tok):
     return hex2float(tok)
 
@@ -341,6 +355,15 @@ class Work:
         cases = [ops for _, ops in tagged]
         impl, crashes = run_cases(self.exe, cases)
         model = run_cases(ctx.driver("drv_geo"), cases)[0] if with_model else None
+        lit_index, gram = {}, []
+        if with_model:      # third party: the documented grammar decided by the (verified) derivative matcher
+            gcases = []
+            for i, (stream, ops) in enumerate(tagged):
+                if stream == "lit":
+                    lit_index[i] = len(gcases)
+                    gcases.append([GRAMMAR_OP[op.split()[0]] + op[len(op.split()[0]):] if op.split() and op.split()[0] in GRAMMAR_OP
+                                   else op for op in ops])
+            gram = run_cases(ctx.driver("drv_geo"), gcases)[0] if gcases else []
         for i, (stream, ops) in enumerate(tagged):
             out = impl[i]
             if i in crashes:
@@ -349,6 +372,8 @@ class Work:
                 continue
             if with_model:
                 self.compare(stream, ops, out, model[i])
+                if stream == "lit":
+                    self.compare_grammar(ops, out, gram[lit_index[i]])
             try:
                 getattr(self, "oracle_" + stream)(ops, out)
             except (IndexError, ValueError) as e:
@@ -377,6 +402,28 @@ class Work:
                 if not ok:
                     corr.disagree(stream, [op], [a], [b], f"op {name}")
             j += nlines
+
+    def compare_grammar(self, ops, out, gout):
+        """implementation's accept/reject vs the decision procedure of the documented grammar (same strings)"""
+        corr = self.corr
+        if len(gout) != len(ops):
+            corr.disagree("lit-grammar", ops[:5], out[:5], gout[:5], "different number of output lines")
+            return
+        for op, a, g in zip(ops, out, gout):
+            name = op.split()[0] if op.split() else ""
+            if name not in GRAMMAR_OP:
+                continue
+            accepted = a == "flag 1" if name != "deg2gon" else a.startswith("ok ")
+            gt = g.split()
+            if len(gt) < 2 or gt[0] != "flag":
+                corr.disagree("lit-grammar", [op], [a], [g], "grammar decision procedure gave no flag")
+                continue
+            if accepted == (gt[1] == "1"):
+                corr.count("grammar_lines_agree")
+                if name == "deg2gon" and len(gt) > 2 and gt[2] == "1" and gt[1] == "0":
+                    corr.count("dms_shape_ok_but_out_of_range")
+            else:
+                corr.disagree("lit-grammar", [op], [a], [g], f"{name}: implementation vs documented grammar")
 
     def num_close(self, name, ta, tb):
         if len(ta) != len(tb):
@@ -526,8 +573,8 @@ class Work:
                 dd = int(x); mm = int((x - dd) * 100 + 1e-9); ss = ((x - dd) * 100 - mm) * 100
                 if x == 360.0:
                     corr.count("rad2dms_equals_360_double")    # -tiny + 360 rounds to 360.0 (floating edge of [0, 360))
-                if not (0 <= x <= 360) or d > 1e-11:
-                    f17 = abs(d - 40 * ARCSEC) < 1e-9 and 0 <= x <= 360
+                if not (0 <= x <= 360) or d > 1e-11 + 1e-15 * abs(r):     # r*180/pi and the reduction lose |r| ulps
+                    f17 = abs(d - 40 * ARCSEC) < 1e-9 + 1e-15 * abs(r) and 0 <= x <= 360
                     self.fail(f"dms2rad(rad2dms({r!r})) = {r2!r}, expected {want!r}; dms={x!r}"
                               + (" (off by 40 arc seconds)" if f17 else ""), "ang", [op], "dms2rad" if f17 else "rad-dms-rad",
                               "dms2rad" if f17 else "rad2dms")
@@ -653,6 +700,8 @@ def correspond(ctx, corr):
         corr.inconclusive.append("angle generator: too few values whose seconds round up to 60")
     if min(st.get("brg_quadrant_%d%d" % (a, b), 0) for a in (0, 1) for b in (0, 1)) < 10 or st.get("brg_below_cut", 0) < 5:
         corr.inconclusive.append("bearing generator: a quadrant / the cut is under-represented")
+    if st.get("grammar_lines_agree", 0) + len([d for d in corr.disagreements if d]) < 50000 or st.get("dms_shape_ok_but_out_of_range", 0) < 5:
+        corr.inconclusive.append("literal stream: grammar third party did not run on the exhaustive set / too few out-of-range fields")
 
 
 def search(ctx, broken, corr):
